@@ -27,7 +27,7 @@ EXPLANATION = (
     '(d) shared rules whose violation corrupts delivered bytes: fragments of one stream are not displaced behind '
     'frames of that stream (C05.a), reassembly keeps the flags of the last fragment (C03.c), the last-fragment mark '
     'is an exhaustion test (C03.f).')
-EXPLANATION_ADDED = ("(e) received frames reach the code the other rules analyse: the receive loop passes every frame of the transport and its dispatch table to _handle_next_frame, which puts fragmentable frames through the reassembly cache exactly once and dispatches the cache's result, sends stream-0 frames and new requests (never offered to the stream table first) to the table and everything else to the stream table; table[type(frame)] is awaited with the frame; each row's method calls the application's entry point once with Payload(frame.data, frame.metadata), creates the matching responder and hands it the request frame; the handler future of a request-response is wired to the responder's send callback; (f) per (interaction, role, event) what a handler does on every path from its initial state is the protocol's reaction (signals, frames with their flags, future resolution, credit, cancellation), on the right branch of the tests it depends on; (g) the library's stream source hands every credited element on exactly once (C06.e), new_frame_fragment (C03.b) and the queue class (C05.f) do what the picker assumes; the awaitable adapter binds its limit_rate to the collector's refill size and nothing to its element cut-off, so it collects the whole stream (shared C06.a); (h, reported as C01.g) at every resolved call site of a library function or constructor (about 700) no argument named after one parameter of the callee is bound by position to a different one, and every parameter that receives a value from a library call site is read by the function (outside log lines; parameters declared by an abstract interface method excepted); the awaitable adapter (C01.h): the collector appends every element once before anything else, the completing element / on_complete / on_error release the waiter, run() raises the kept error or returns the collection, each request method calls the wrapped socket's method of the same name with the caller's arguments and hands its result back; (C01.i) every transport's send_frame hands the frame or its serialisation to an awaited send of the connection, to an own method that writes it, or to an outgoing queue that a drain loop of the class empties into an awaited send.")
+EXPLANATION_ADDED = ("(e) received frames reach the code the other rules analyse: the receive loop passes every frame of the transport and its dispatch table to _handle_next_frame, which puts fragmentable frames through the reassembly cache exactly once and dispatches the cache's result, sends stream-0 frames and new requests (never offered to the stream table first) to the table and everything else to the stream table; table[type(frame)] is awaited with the frame; each row's method calls the application's entry point once with Payload(frame.data, frame.metadata), creates the matching responder and hands it the request frame; the handler future of a request-response is wired to the responder's send callback; (f) per (interaction, role, event) what a handler does on every path from its initial state is the protocol's reaction (signals, frames with their flags, future resolution, credit, cancellation), on the right branch of the tests it depends on; (g) the library's stream source hands every credited element on exactly once (C06.e), new_frame_fragment (C03.b) and the queue class (C05.f) do what the picker assumes; the awaitable adapter binds its limit_rate to the collector's refill size and nothing to its element cut-off, so it collects the whole stream (shared C06.a); (h, reported as C01.g) at every resolved call site of a library function or constructor (about 700) no argument named after one parameter of the callee is bound by position to a different one, and every parameter that receives a value from a library call site is read by the function (outside log lines; parameters declared by an abstract interface method excepted); the awaitable adapter (C01.h): the collector appends every element once before anything else, the completing element / on_complete / on_error release the waiter, run() raises the kept error or returns the collection, each request method calls the wrapped socket's method of the same name with the caller's arguments and hands its result back; (C01.i) every transport's send_frame hands the frame or its serialisation to an awaited send of the connection, to an own method that writes it, or to an outgoing queue that a drain loop of the class empties into an awaited send; (C01.j) no queue attribute of the library that is fed with put_nowait() is built with a fixed positive maxsize (QueueFull would drop the element); only the sender task writes to the transport (shared C05.g); a reconnect starts with an empty reassembly cache (shared C17.c).")
 EXPLANATION = EXPLANATION.replace(' Not decided', ' ' + EXPLANATION_ADDED + ' Not decided', 1) \
     if ' Not decided' in EXPLANATION else EXPLANATION + ' ' + EXPLANATION_ADDED
 ASSUMPTIONS = COMMON_ASSUMPTIONS
@@ -427,6 +427,10 @@ def rule_l(ctx):
     # only the sender task writes to the transport (shared C05.g)
     from .c05 import rule_single_writer
     rule_single_writer(ctx)
+    # what is handed from task to task inside the library is not dropped on the way: the queues that are fed with
+    # put_nowait() have no fixed bound
+    from .plumbing import rule_bounded_queue_nowait
+    rule_bounded_queue_nowait(ctx, 'C01.j', ['rsocket', 'reactivestreams'], 'library queues')
 
 
 def rule_g(ctx):
@@ -447,4 +451,4 @@ def rule_d(ctx):
     c03f(ctx)
 
 
-RULES = [('C01.a', rule_a), ('C01.b', rule_b), ('C01.c', rule_c), ('C01.d', rule_e), ('C01.e', rule_f), ('C01.f', rule_g), ('C06.e', rule_h), ('C06.a', rule_i), ('C01.g', rule_j), ('C01.h', rule_k), ('C01.i+C02.e+C17.c', rule_l), ('C05.a+C05.f+C03.b+C03.c+C03.f', rule_d)]
+RULES = [('C01.a', rule_a), ('C01.b', rule_b), ('C01.c', rule_c), ('C01.d', rule_e), ('C01.e', rule_f), ('C01.f', rule_g), ('C06.e', rule_h), ('C06.a', rule_i), ('C01.g', rule_j), ('C01.h', rule_k), ('C01.i+C02.e+C17.c+C05.g+C01.j', rule_l), ('C05.a+C05.f+C03.b+C03.c+C03.f', rule_d)]
